@@ -18,6 +18,7 @@ Implementation side (this file):
 
 The reference models (RefCache, RefDeque, RefIndex) and `linearize` are reused by C06 and C07.
 """
+import json
 import os
 import shutil
 import signal
@@ -1128,7 +1129,203 @@ RULE = ('programs of 2-4 clients x 1-3 calls from {set, add, incr, decr, get, po
         'Cache, forked processes) along a random fine- or coarse-grained schedule, plus hand-picked races whose schedules are enumerated; '
         'monitor = linearizability search against the Python reference dictionary with real-time precedence and the observed final contents; '
         'tolerated: a lookup overlapping another client\'s write of the same key reports a miss.  '
+        'Fresh interpreters (started from scratch with different PYTHONHASHSEED, nothing inherited) on one FanoutCache / Cache directory with text '
+        'keys: run one after the other their calls give the results of a dictionary; run at the same time every increment of a shared counter is '
+        'counted once and every key is added by exactly one of them.  '
         'non-trivial = calls of at least two clients overlap in time; distinct = distinct (program, setup, executed schedule, mode).')
+
+
+# ---------------------------------------------------------------------------
+# clients that are separate interpreters started from scratch (not forked: nothing is inherited, hash seeds differ), on one directory
+
+FRESH_CHILD = r"""
+import sys, json, os, time
+sys.path.insert(0, sys.argv[1])
+import diskcache
+from diskcache import core
+assert os.path.realpath(os.path.dirname(os.path.dirname(core.__file__))) == os.path.realpath(sys.argv[1]), core.__file__
+kind, directory, shards, who, gate = sys.argv[2], sys.argv[3], int(sys.argv[4]), sys.argv[5], sys.argv[6]
+calls = json.loads(sys.stdin.read())
+if kind == 'fanout':
+    c = diskcache.FanoutCache(directory, shards=shards, timeout=60, eviction_policy='none')
+else:
+    c = diskcache.Cache(directory, timeout=60, eviction_policy='none')
+if gate:
+    open(gate + '.' + who, 'w').close()
+    t0 = time.time()
+    while not os.path.exists(gate + '.go') and time.time() - t0 < 60:
+        time.sleep(0.002)
+out = []
+for call in calls:
+    op, k = call['op'], call.get('key')
+    try:
+        if op == 'add':
+            r = c.add(k, call['value'], retry=True)
+        elif op == 'set':
+            r = c.set(k, call['value'], retry=True)
+        elif op == 'get':
+            r = c.get(k, default='DEFAULT', retry=True)
+        elif op == 'incr':
+            r = c.incr(k, retry=True)
+        elif op == 'pop':
+            r = c.pop(k, default='DEFAULT', retry=True)
+        elif op == 'delete':
+            r = c.delete(k, retry=True)
+        elif op == 'contains':
+            r = k in c
+        elif op == 'len':
+            r = len(c)
+        out.append(['ok', r])
+    except Exception as e:
+        out.append(['exc', type(e).__name__])
+c.close()
+print(json.dumps(out))
+"""
+FRESH_SEEDS = ['1', '2', '4294967295']
+
+
+def fresh_spawn(kind, directory, shards, who, seed, calls, gate=''):
+    import subprocess
+    env = dict(os.environ)
+    env.update({'PYTHONHASHSEED': seed, 'PYTHONPATH': fw.REPO, 'PYTHONDONTWRITEBYTECODE': '1'})
+    p = subprocess.Popen([fw.PY, '-c', FRESH_CHILD, fw.REPO, kind, directory, str(shards), who, gate], stdin=subprocess.PIPE,
+                         stdout=subprocess.PIPE, stderr=subprocess.PIPE, text=True, env=env)
+    p.stdin.write(json.dumps(calls))
+    p.stdin.close()
+    return p
+
+
+def fresh_collect(p):
+    out = p.stdout.read()
+    err = p.stderr.read()
+    if p.wait(timeout=300) != 0:
+        raise RuntimeError('child interpreter failed: ' + err[-800:])
+    return json.loads(out.strip().splitlines()[-1])
+
+
+def fresh_ref_apply(state, call):
+    """the reference for these calls (no expiry, no tags): a dictionary"""
+    op, k = call['op'], call.get('key')
+    if op == 'add':
+        if k in state:
+            return False
+        state[k] = call['value']
+        return True
+    if op == 'set':
+        state[k] = call['value']
+        return True
+    if op == 'get':
+        return state.get(k, 'DEFAULT')
+    if op == 'incr':
+        state[k] = state.get(k, 0) + 1
+        return state[k]
+    if op == 'pop':
+        return state.pop(k, 'DEFAULT')
+    if op == 'delete':
+        return state.pop(k, None) is not None
+    if op == 'contains':
+        return k in state
+    if op == 'len':
+        return len(state)
+
+
+def fresh_programs(rng, nkeys):
+    keys = ['key-%d' % i for i in range(nkeys)] + ['k', 'schlüssel', 'K' * 40]
+    prog = []
+    for k in keys:
+        prog.append({'op': 'add', 'key': k, 'value': 'first'})
+    prog += [{'op': 'incr', 'key': 'counter'} for _ in range(5)]
+    prog.append({'op': 'set', 'key': 'shared', 'value': 'X' * 30})
+    second = [{'op': 'add', 'key': k, 'value': 'second'} for k in keys]
+    second += [{'op': 'incr', 'key': 'counter'} for _ in range(5)]
+    second += [{'op': 'get', 'key': 'shared'}, {'op': 'contains', 'key': keys[0]}, {'op': 'len'}]
+    second += [{'op': rng.choice(['pop', 'delete', 'get']), 'key': rng.choice(keys)} for _ in range(8)]
+    third = [{'op': 'get', 'key': k} for k in keys] + [{'op': 'get', 'key': 'counter'}, {'op': 'len'}]
+    return [prog, second, third]
+
+
+def fresh_sequential_case(ctx, kind, shards, programs, seeds):
+    """each interpreter runs after the one before has exited: the results are those of the calls in that order on a dictionary"""
+    d = ctx.scratch('c05fp')
+    problems = []
+    try:
+        state = {}
+        for who, (prog, seed) in enumerate(zip(programs, seeds)):
+            got = fresh_collect(fresh_spawn(kind, d, shards, 'p%d' % who, seed, prog))
+            for i, (call, g) in enumerate(zip(prog, got)):
+                want = ['ok', fresh_ref_apply(state, call)]
+                if g != want:
+                    problems.append(('fresh_process_result:%s' % call['op'],
+                                     '%s (%d shards): interpreter %d (hash seed %s), started after the ones before had exited, call %d %s returned %r, '
+                                     'a dictionary gives %r' % (kind, shards, who, seed, i, {k: v for k, v in call.items()}, g, want)))
+                    return problems
+    finally:
+        shutil.rmtree(d, ignore_errors=True)
+    return problems
+
+
+def fresh_concurrent_case(ctx, kind, shards, nproc, nincr, nadd, seeds):
+    """interpreters running at the same time: every increment counted once, every key added by exactly one of them"""
+    d = ctx.scratch('c05fc')
+    gate = os.path.join(d, 'gate')
+    problems = []
+    try:
+        os.makedirs(d, exist_ok=True)
+        calls = []
+        for i in range(max(nincr, nadd)):
+            if i < nincr:
+                calls.append({'op': 'incr', 'key': 'counter'})
+            if i < nadd:
+                calls.append({'op': 'add', 'key': 'race-%d' % i, 'value': 'v'})
+        procs = [fresh_spawn(kind, d, shards, 'p%d' % w, seeds[w % len(seeds)], calls, gate) for w in range(nproc)]
+        t0 = _time.time()
+        while not all(os.path.exists(gate + '.p%d' % w) for w in range(nproc)) and _time.time() - t0 < 60:
+            _time.sleep(0.005)
+        open(gate + '.go', 'w').close()
+        outs = [fresh_collect(p) for p in procs]
+        incrs = sorted(r[1] for o in outs for c, r in zip(calls, o) if c['op'] == 'incr' and r[0] == 'ok')
+        errors = [r for o in outs for r in o if r[0] != 'ok']
+        if errors:
+            problems.append(('fresh_process_error', '%s (%d shards): %d concurrent interpreters: a call raised %s' % (kind, shards, nproc, errors[0][1])))
+        elif incrs != list(range(1, nproc * nincr + 1)):
+            problems.append(('fresh_process_lost_update', '%s (%d shards): %d interpreters (hash seeds %s) each incremented one counter %d times: the values returned '
+                             'are %r..., expected each of 1..%d once' % (kind, shards, nproc, seeds[:nproc], nincr, incrs[:12], nproc * nincr)))
+        for i in range(nadd):
+            wins = sum(1 for o in outs for c, r in zip(calls, o) if c['op'] == 'add' and c['key'] == 'race-%d' % i and r == ['ok', True])
+            if wins != 1 and not errors:
+                problems.append(('fresh_process_add_won_%s' % ('twice' if wins > 1 else 'never'), '%s (%d shards): add(%r) by %d concurrent interpreters succeeded %d times'
+                                 % (kind, shards, 'race-%d' % i, nproc, wins)))
+                break
+    finally:
+        shutil.rmtree(d, ignore_errors=True)
+    return problems
+
+
+def fresh_interpreters(ctx, res, stats, thorough):
+    configs = [('fanout', 8), ('cache', 1)] + ([('fanout', 3), ('fanout', 2), ('fanout', 13)] if thorough else [])
+    seen = set()
+    n = 0
+    for kind, shards in configs:
+        seeds = FRESH_SEEDS[ctx.seed % 3:] + FRESH_SEEDS[:ctx.seed % 3]
+        programs = fresh_programs(ctx.rng, 32 if kind == 'fanout' else 8)
+        case = {'check': 'fresh_sequential', 'kind': kind, 'shards': shards, 'programs': programs, 'seeds': seeds}
+        res.count(['fresh-seq', kind, shards, tuple(seeds)], nontrivial=True)
+        n += 1
+        for sig, desc in fresh_sequential_case(ctx, kind, shards, programs, seeds):
+            if sig not in seen:
+                seen.add(sig)
+                res.violations.append(fw.Violation(sig, desc, case))
+        if kind == 'cache' and not thorough:
+            continue
+        nproc, nincr, nadd = (3, 25, 12) if thorough else (2, 12, 6)
+        case = {'check': 'fresh_concurrent', 'kind': kind, 'shards': shards, 'nproc': nproc, 'nincr': nincr, 'nadd': nadd, 'seeds': seeds}
+        res.count(['fresh-conc', kind, shards, nproc], nontrivial=True)
+        n += 1
+        for sig, desc in fresh_concurrent_case(ctx, kind, shards, nproc, nincr, nadd, seeds):
+            if sig not in seen:
+                seen.add(sig)
+                res.violations.append(fw.Violation(sig, desc, case))
+    stats['fresh_interpreter_cases'] = n
 
 
 def run(ctx, big=False):
@@ -1151,8 +1348,10 @@ def run(ctx, big=False):
         if not ctx.quick and not enough(res):
             soak(ctx, res, stats)
     ctx.deadline = None
+    if not enough(res):
+        fresh_interpreters(ctx, res, stats, thorough)
     res.traces_validated = 0
-    res.extra.update({
+    res.extra.update({'fresh_interpreter_cases': stats.get('fresh_interpreter_cases'),
         'runs': stats['runs'], 'programs_by_clients': stats['by_clients'], 'programs_by_calls': stats['by_calls'], 'runs_by_driver_mode': stats['by_mode'],
         'op_histogram': stats['ops'], 'runs_with_contention_reached': stats['contended'], 'calls_that_timed_out': stats['timeouts'],
         'runs_with_file_backed_values': stats['file_backed_runs'], 'tolerated_anomalies_seen': stats['anomalies'],
@@ -1425,6 +1624,20 @@ def search(ctx, broken):
 
 def replay(payload):
     case = payload.get('case', {})
+    if case.get('check') in ('fresh_sequential', 'fresh_concurrent'):
+        ctx = fw.Ctx('C05', 'quick', 1)
+        try:
+            if case['check'] == 'fresh_sequential':
+                problems = fresh_sequential_case(ctx, case['kind'], case['shards'], case['programs'], case['seeds'])
+            else:
+                problems = []
+                for _ in range(5):      # free-running processes: repeat
+                    problems = problems or fresh_concurrent_case(ctx, case['kind'], case['shards'], case['nproc'], case['nincr'], case['nadd'], case['seeds'])
+            for sig, desc in problems:
+                print(sig, desc)
+            return not problems
+        finally:
+            ctx.cleanup()
     if case.get('check') != 'schedule':
         print(payload)
         return True
